@@ -9,14 +9,30 @@ Local Open Scope N_scope.
    cache control, in every cache state that holds only compiler-produced entries: the client gets the
    compiler's own exit status, stdout, stderr and outputs (or the request is handed back to the client, which
    runs the compiler itself).  Hypotheses: the two hash keys are sound ([consistent], the subject of C02 and
-   C04), the compiler writes its outputs when it exits 0 ([sane]), and the output directory is usable
-   ([f_outdir_ok], not a storage fault: the compiler itself fails without it). *)
+   C04), the compiler writes its outputs when it exits 0 ([sane]), the output directory is usable
+   ([f_outdir_ok], not a storage fault: the compiler itself fails without it), and nothing inside the server
+   PANICS on the way ([calm]: the storage calls return — Ok, Err, garbage, late — rather than panic, and sccache's
+   own code reaches the compiler; a panicking result put is allowed).  What happens without [calm] is
+   C09_internal_fault_reported below. *)
 Theorem C09_faults_transparent :
   forall (w : world) (st : cstate) (t : N) (f : faults) (cl : req_class) (cc : cache_control),
-    consistent w -> Inv w st -> sane (w t) -> f_outdir_ok f = true ->
+    consistent w -> Inv w st -> sane (w t) -> f_outdir_ok f = true -> calm f (w t) ->
     transparent (w t) (snd (fst (request f cl cc (w t) st))).
 Proof. exact request_transparent. Qed.
 Print Assumptions C09_faults_transparent.
+
+(* An internal fault (a storage call or sccache's own code panics inside the compile task) is caught: the request
+   is still ANSWERED — with the compiler's own result if the panic was not on its path, otherwise with a reported
+   fatal error, never with a wrong result — and it ends in the error class of the statistics. *)
+Theorem C09_internal_fault_reported :
+  (forall (w : world) (st : cstate) (t : N) (f : faults) (cl : req_class) (cc : cache_control),
+      consistent w -> Inv w st -> sane (w t) -> f_outdir_ok f = true ->
+      transparent (w t) (snd (fst (request f cl cc (w t) st)))
+      \/ r_client (snd (fst (request f cl cc (w t) st))) = CFatal)
+  /\ (forall f cc o st, r_client (snd (execute f cc o st)) = CFatal ->
+                        r_outcome (snd (execute f cc o st)) = Some OFatal).
+Proof. split; [exact request_answered | exact execute_panic_is_error]. Qed.
+Print Assumptions C09_internal_fault_reported.
 
 (* The same for whole histories from the empty cache: requests with arbitrary faults, interleaved with damage
    to entry files behind the server's back (overwrite with garbage, truncate, empty, delete; result entries
@@ -48,7 +64,7 @@ Print Assumptions C09_compile_failure_never_stored.
    compiles leaves a well-formed entry behind, and the next one is a hit that does not run the compiler. *)
 Theorem C09_repopulates :
   forall (w : world) (st : cstate) (t : N),
-    consistent w -> Inv w st -> sane (w t) -> cs_ro st = false ->
+    consistent w -> Inv w st -> sane (w t) -> calm_oracle (w t) -> cs_ro st = false ->
     o_pp_status (w t) = 0 -> o_c_status (w t) = 0 -> o_cacheable (w t) = true ->
     let '(st1, r1, _) := request no_faults QCompile CCDefault (w t) st in
     let '(st2, r2, _) := request no_faults QCompile CCDefault (w t) st1 in
@@ -60,13 +76,18 @@ Print Assumptions C09_repopulates.
 
 (* ---------- non-vacuity ---------- *)
 
-(* a world meeting the hypotheses *)
-Example C09_world_exists : consistent demo_oracle /\ (forall t, sane (demo_oracle t)) /\ Inv demo_oracle empty_cache.
-Proof. split; [exact demo_consistent|split; [exact demo_sane|apply Inv_empty]]. Qed.
-
 Definition worst : faults :=
   {| f_ppget := PFGarbage; f_ppupd := WErr; f_ppput := WReadOnly; f_get := GBadObj; f_put := WTooLarge;
      f_outdir_ok := true |}.
+
+(* a world meeting the hypotheses *)
+Example C09_world_exists :
+  consistent demo_oracle /\ (forall t, sane (demo_oracle t)) /\ (forall t, calm_oracle (demo_oracle t))
+  /\ Inv demo_oracle empty_cache /\ calm worst (demo_oracle 3).
+Proof.
+  split; [exact demo_consistent|split; [exact demo_sane|split; [exact demo_calm|split; [apply Inv_empty|]]]].
+  unfold calm, worst; simpl. repeat split; discriminate.
+Qed.
 
 (* everything that can go wrong goes wrong, and the client still gets the compiler's result; nothing is stored *)
 Example C09_everything_fails :
@@ -102,6 +123,23 @@ Example C09_sane_needed :
   let bad := {| o_lang := o_lang o; o_pp_key := o_pp_key o; o_manifest := o_manifest o; o_upd := o_upd o;
                 o_pp_status := 0; o_pp_stderr := []; o_manifest_ok := true; o_key := o_key o; o_c_status := 0;
                 o_c_stdout := []; o_c_stderr := []; o_c_outputs := o_c_outputs o; o_c_writes := false;
-                o_cacheable := true |} in
+                o_cacheable := true; o_pp_panics := false; o_c_panics := false |} in
   r_client (snd (fst (request no_faults QCompile CCDefault bad empty_cache))) = CFatal.
+Proof. vm_compute. reflexivity. Qed.
+
+(* (3) a storage call that PANICS (here: the lookup) is caught: the client is told "encountered fatal error", the
+   request is counted under cache_errors, nothing is stored *)
+Example C09_panic_is_reported :
+  request {| f_ppget := PFNone; f_ppupd := WNone; f_ppput := WNone; f_get := GPanic; f_put := WNone; f_outdir_ok := true |}
+          QCompile CCDefault (demo_oracle 0) empty_cache
+  = ({| cs_res := []; cs_pp := [([0], PGood [0; 0] 7)]; cs_ro := false |},
+     {| r_client := CFatal; r_outputs := []; r_pp_runs := 1; r_cc_runs := 0; r_outcome := Some OFatal |},
+     [[ICompileRequests]; [IExecuted]; [ICacheError {| l_lang := 0; l_adv := 0 |}]]).
+Proof. vm_compute. reflexivity. Qed.
+
+(* ... while a panicking result PUT is just a failed write: the client has the compiler's result *)
+Example C09_panicking_put_is_a_write_error :
+  snd (request {| f_ppget := PFNone; f_ppupd := WNone; f_ppput := WNone; f_get := GNone; f_put := WPanic; f_outdir_ok := true |}
+               QCompile CCDefault (demo_oracle 0) empty_cache)
+  = [[ICompileRequests]; [IExecuted]; [ICompilation; IMiss {| l_lang := 0; l_adv := 0 |}]; [IWriteError]].
 Proof. vm_compute. reflexivity. Qed.
